@@ -77,6 +77,7 @@ type ContractSet struct {
 	funcs     map[string]*FuncContract // key: pkgpath + "." + name
 	functypes map[string]*FuncContract // key: type key (pkgname.Type)
 	ifaces    map[string]*FuncContract // key: ifaceTypeKey.Method
+	externs   map[string]*FuncContract // key: full name of a function outside the module (ssa.Function.String()); assumed
 	specs     map[string]*SpecFn       // key: pkgpath.name and bare name
 	ghosts    map[string]*GhostVar
 	pkgs      map[string]*types.Package
@@ -85,7 +86,7 @@ type ContractSet struct {
 }
 
 func newContractSet() *ContractSet {
-	return &ContractSet{funcs: map[string]*FuncContract{}, functypes: map[string]*FuncContract{}, ifaces: map[string]*FuncContract{},
+	return &ContractSet{funcs: map[string]*FuncContract{}, functypes: map[string]*FuncContract{}, ifaces: map[string]*FuncContract{}, externs: map[string]*FuncContract{},
 		specs: map[string]*SpecFn{}, ghosts: map[string]*GhostVar{}, pkgs: map[string]*types.Package{}}
 }
 
@@ -241,7 +242,7 @@ func (cs *ContractSet) loadFile(path string, p *packages.Package) error {
 			}
 			cs.ghosts[parts[0]] = &GhostVar{Name: parts[0], Type: te, Pkg: p.Types}
 			cur = nil
-		case strings.HasPrefix(text, "func "), strings.HasPrefix(text, "functype "), strings.HasPrefix(text, "iface "), strings.HasPrefix(text, "lemma "):
+		case strings.HasPrefix(text, "func "), strings.HasPrefix(text, "functype "), strings.HasPrefix(text, "iface "), strings.HasPrefix(text, "lemma "), strings.HasPrefix(text, "extern "):
 			sp := strings.SplitN(text, " ", 2)
 			name := strings.TrimSpace(sp[1])
 			cur = &FuncContract{Kind: sp[0], Name: name, PkgPath: p.PkgPath, Pkg: p.Types, Loops: map[int]*LoopContract{}, File: path, Line: i + 1}
@@ -257,6 +258,11 @@ func (cs *ContractSet) loadFile(path string, p *packages.Package) error {
 				cs.functypes[name] = cur
 			case "iface":
 				cs.ifaces[name] = cur
+			case "extern":
+				// assumed contract of a function outside the module: its requires become obligations of the
+				// callers, its ensures and frame are assumptions (listed in the evidence)
+				cur.Trusted = true
+				cs.externs[name] = cur
 			}
 		default:
 			if cur == nil {
